@@ -363,7 +363,10 @@ class HalfRankComponent(OutputWarper):
     self._unwarper = _HalfRankUnwarper(
         original_labels=unique_labels,
         warped_labels=labels_arr[is_finite][unique_idx],
-        original_label_median=unique_labels[len(unique_labels) // 2],
+        # The threshold that warp() used above: labels at or above it were
+        # left untouched. (The median of the *unique* labels differs from it
+        # when there are repeated values.)
+        original_label_median=median,
     )
     return labels_arr[:, np.newaxis]
 
